@@ -198,6 +198,20 @@ def run_zinc(rep, tier, want):
                 cases.append({'id': nid, 'k': 'denotes', 'strict': True, 'text': absval.cps(text), 'expect': ab,
                               'verexact': absval.cps(meta['ver']) if single and meta.get('ver') in ('2.0', '3.0') else []})
                 info[nid] = ('C04', meta, text)
+                if nid % 3 == 0:
+                    # the values the grid holds are edited in place after the grid was written once (the number of a
+                    # Quantity, the payload of an XStr ...): what is written now denotes the grid as it is now
+                    try:
+                        if absval.edit_values(hs, grids):
+                            ab_e = A.doc(grids)
+                            text_e = hs.dump(grids[0] if single else list(grids), mode=hs.MODE_ZINC)
+                            nid += 1
+                            cases.append({'id': nid, 'k': 'denotes', 'strict': True, 'text': absval.cps(text_e),
+                                          'expect': ab_e, 'verexact': []})
+                            info[nid] = ('C04', dict(meta, edited_after_first_dump=True), text_e)
+                    except Exception as e:
+                        found.append(('C04', dict(meta, engine='zinc', clause='dump_raises_after_edit', exc=type(e).__name__),
+                                      {'plan': meta, 'exception': repr(e)[:300]}))
             if 'C01' in want:
                 try:
                     back = hs.parse(text, mode=hs.MODE_ZINC, single=single)
